@@ -32,10 +32,10 @@ REAL = ["BPTK_Py.modeling.simultaneousScheduler.SimultaneousScheduler (run, run_
         "BPTK_Py.scenariomanager.scenario_manager_hybrid (deep copy per scenario)", "BPTK_Py.bptk.run_scenarios"]
 STUB = ["choice of the running scenario thread (baton scheduler, line events in simultaneousScheduler.py/model.py/dataCollector.py/scheduler.py)",
         "agents/model/collector are logging harness subclasses"]
-ASSUMPTIONS = ["population changes in the two round hooks, plus deletions from inside act of the acting agent itself or of an agent created before it (both have already acted; creations inside act are not generated: the property does not say whether such an agent acts in that step)",
+ASSUMPTIONS = ["population changes in the two round hooks, plus deletions from inside act of the acting agent itself or of an agent created before it (both have already acted), and creations from inside act: the newcomer is a live agent and is expected to handle and act last in that very step, as the pinned tree does",
                "harness subclasses (models/abm_agents.py) run atomically between pre-emption points"]
 FAULT_KINDS = ["preemption", "population_change_in_hook", "agent_deleted_inside_act"]
-PROBES = ["model_run_again_with_other_run_spec", "deletion_inside_act", "zero_stop_time", "negative_start", "decimal_dt", "empty_population", "collect_off", "threads_interleaved", "driven_steps"]
+PROBES = ["model_run_again_with_other_run_spec", "deletion_inside_act", "creation_inside_act", "zero_stop_time", "negative_start", "decimal_dt", "empty_population", "collect_off", "threads_interleaved", "driven_steps"]
 EXHAUSTIVE = {"quick": False, "thorough": False}
 
 
@@ -67,7 +67,7 @@ def generate(spec):
             # the same model and scheduler are run again after run_specs() gave them another run spec
             d2 = rng.choice([d for d in W.DTS if d != scs[0]["dt"]])
             s2 = rng.choice([0, 1, 2])
-            scs[0]["second"] = {"start": s2, "stop": s2 + rng.choice([0, 1, 2]), "dt": d2}
+            scs[0]["second"] = {"start": s2, "stop": s2 + rng.choice([0, 1, 2]), "dt": d2, "collect": rng.random() < 0.5}
     return {"property": PROPERTY, "mode": mode, "collect": collect, "scenarios": scs, "sched": sched}
 
 
@@ -104,6 +104,8 @@ def execute(case):
         if sc.get("acts"):
             res.fault("agent_deleted_inside_act", len(sc["acts"]))
             res.probe("deletion_inside_act")
+            if any(a["op"] == "create" for a in sc["acts"]):
+                res.probe("creation_inside_act")
     if not collect:
         res.probe("collect_off")
     if mode != "bptk_threads":
@@ -126,6 +128,7 @@ def execute(case):
                     s2 = sc["second"]
                     m.world.calls = []
                     m.run_specs(s2["start"], s2["stop"], s2["dt"])
+                    collect = s2.get("collect", collect)       # the second run may switch data collection on or off
                     m.run(collect_data=collect)
                     sc = {**sc, "start": s2["start"], "stop": s2["stop"], "dt": s2["dt"]}
                     exp = W.expected_calls(sc, collect, sh=sh1, k0=k1, with_hooks=False)
